@@ -208,8 +208,24 @@ def check_cliques(ctx):
         ok = t in ('sorted([self.domain.canonical(c)forcinnx.find_cliques(%s)])' % tri[0],
                    '[self.domain.canonical(c)forcinnx.find_cliques(%s)]' % tri[0],
                    'sorted((self.domain.canonical(c)forcinnx.find_cliques(%s)))' % tri[0])
+    why = ''
+    if tri and cl and not ok:
+        # second recognised source: the cliques read off the elimination order (the order IS a perfect elimination order of the
+        # triangulated graph it produced): C_v = {v} + the neighbours of v eliminated later; the maximal cliques are exactly the C_v not
+        # contained in a C_u, and only an EARLIER u can contain it (lemma, trusted like find_cliques)
+        import re
+        m = re.fullmatch(r'(?:sorted\()?[\[\(]self\.domain\.canonical\((\w+)\)for\1inself\.(\w+)\((\w+),(\w+)\)[\]\)]\)?', U(cl[-1].value).replace(' ', ''))
+        if m and m.group(3) == tri[0] and ctx.repo.has_func(JT, 'JunctionTree.' + m.group(2)):
+            helper = ctx.repo.func(JT, 'JunctionTree.' + m.group(2))
+            order_arg = m.group(4)
+            tri_order = U(tri[1].value.args[0]) if tri[1].value.args else None
+            ok, why = elimination_cliques(helper)
+            if ok and order_arg != tri_order:
+                ok, why = False, 'the cliques are read off the order `%s`, the triangulation was produced by `%s`' % (order_arg, tri_order)
+            ctx.analysed(helper)
     ctx.ob('cliques-of-triangulation', fi, cl[-1] if cl else fi.node, ok,
-           'tree nodes = maximal cliques (nx.find_cliques) of the triangulated graph returned by _triangulated, each in canonical attribute order')
+           'tree nodes = maximal cliques (nx.find_cliques, or the elimination cliques not contained in an earlier one) of the triangulated graph '
+           'returned by _triangulated, each in canonical attribute order%s' % (': ' + why if why else ''))
     ok = tri is not None and len(tri[1].value.args) == 1 and U(tri[1].value.args[0]) == 'order'
     ctx.ob('order-modes', fi, tri[1] if tri else fi.node, ok, 'the triangulation eliminates in the chosen order')
     # triangulated graph = model graph + fill-in edges
@@ -223,6 +239,55 @@ def check_cliques(ctx):
         any(isinstance(c.func, ast.Attribute) and U(c.func.value) == tri_name and c.func.attr == 'add_edges_from' for c in calls_in(t.node))
     ctx.ob('elimination-fill-in', t, tdefs.get(tri_name) or t.node, ok,
            'the triangulated graph is a copy of the model graph plus all collected fill-in edges')
+
+
+def elimination_cliques(h):
+    """for node in order: C = set(G.neighbors(node)) | {node}; keep C unless it is inside ANY clique kept before; G.remove_node(node)"""
+    if len(h.params) != 3:
+        raise AnalysisError('%s: unrecognised signature' % h.qualname)
+    tri, order = h.params[1], h.params[2]
+    body = h.body
+    loops = [s_ for s_ in body if isinstance(s_, ast.For)]
+    rets = [s_ for s_ in body if isinstance(s_, ast.Return)]
+    if len(loops) != 1 or len(rets) != 1 or not isinstance(loops[0].target, ast.Name) or U(loops[0].iter) != order:
+        raise AnalysisError('%s: not a single pass over the elimination order' % h.qualname)
+    lp = loops[0]
+    node = lp.target.id
+    pre = {U(s_.targets[0]): U(s_.value).replace(' ', '') for s_ in body if isinstance(s_, ast.Assign) and len(s_.targets) == 1}
+    G = None
+    for k, v in pre.items():
+        if v in ('nx.Graph(%s)' % tri, '%s.copy()' % tri, 'networkx.Graph(%s)' % tri):
+            G = k
+    found = U(rets[0].value)
+    if G is None or pre.get(found) not in ('[]', 'list()'):
+        raise AnalysisError('%s: working copy of the triangulated graph / result list not found' % h.qualname)
+    if len(lp.body) != 3:
+        raise AnalysisError('%s: unrecognised elimination pass' % h.qualname)
+    a, g, rm = lp.body
+    cand = None
+    if isinstance(a, ast.Assign) and len(a.targets) == 1 and isinstance(a.targets[0], ast.Name):
+        t = U(a.value).replace(' ', '')
+        if t in ('set(%s.neighbors(%s))|{%s}' % (G, node, node), '{%s}|set(%s.neighbors(%s))' % (node, G, node),
+                 'set(%s.neighbors(%s)).union({%s})' % (G, node, node), 'set(%s[%s])|{%s}' % (G, node, node)):
+            cand = a.targets[0].id
+    removed = isinstance(rm, ast.Expr) and U(rm.value).replace(' ', '') == '%s.remove_node(%s)' % (G, node)
+    if cand is None or not removed or not isinstance(g, ast.If) or g.orelse:
+        raise AnalysisError('%s: unrecognised elimination pass' % h.qualname)
+    app = len(g.body) == 1 and isinstance(g.body[0], ast.Expr) and U(g.body[0].value).replace(' ', '') == '%s.append(%s)' % (found, cand)
+    if not app:
+        raise AnalysisError('%s: unrecognised retention step' % h.qualname)
+    t = g.test
+    if not (isinstance(t, ast.UnaryOp) and isinstance(t.op, ast.Not)):
+        raise AnalysisError('%s: unrecognised maximality test `%s`' % (h.qualname, U(t)[:60]))
+    d = t.operand
+    txt = U(d).replace(' ', '')
+    import re
+    if re.fullmatch(r'any\(\(?%s<=(\w+)for\1in%s\)?\)' % (cand, found), txt) or re.fullmatch(r'any\(\(?%s\.issubset\((\w+)\)for\1in%s\)?\)' % (cand, found), txt):
+        return True, 'elimination cliques, each kept unless contained in one kept earlier'
+    if found + '[-1]' in txt:
+        return False, 'a candidate is only compared with the clique kept LAST (`%s`); it can be nested in one kept earlier (triangle a-b-c with pendant ' \
+                      'd-c under the order a, d, b, c keeps (b,c) next to (a,b,c)), so a tree node contains another' % U(d)
+    raise AnalysisError('%s: unrecognised maximality test `%s`' % (h.qualname, U(d)[:60]))
 
 
 def check_modes(ctx):
